@@ -32,7 +32,8 @@ Definition verb_of (name : string) (n : nat) : option verb :=
   else if name =? "retsock" then Some VUnserved
   else if name =? "hardstop" then Some VHardStop
   else if name =? "softstop" then Some VSoftStop
-  else if name =? "load" then Some (VLoad n)
+  else if name =? "load" then Some (VLoad n false)
+  else if name =? "loadbad" then Some (VLoad n true)
   else None.
 
 Definition client_msgs (c : nat) (os : list out) : list tok :=
